@@ -1171,8 +1171,8 @@ class ValueMap(Value):
         return "<<<" + pad_brackets(
             ", ".join(
                 [
-                    f"{key} => {self.value[key]}"
-                    for key in self.getSortedKeys()
+                    f"{key} => {value}"
+                    for key, value in self.getSortedEntries()
                 ]
             )
         ) + ">>>"
@@ -1197,6 +1197,11 @@ class ValueMap(Value):
 
     def getSortedKeys(self):
         return sorted(self.value.keys())
+
+    def getSortedEntries(self):
+        # the entries in key order, without looking the keys up again: a
+        # key that is a list may have been changed after it was put in
+        return sorted(self.value.items(), key=lambda entry: entry[0])
 
     def type(self):
         return "map"
@@ -1224,8 +1229,8 @@ class ValueMap(Value):
 
     def asObject(self):
         result = ValueObject()
-        for key in self.getSortedKeys():
-            result.addItem(key.asString().value, self.value[key])
+        for key, value in self.getSortedEntries():
+            result.addItem(key.asString().value, value)
         return result
 
     def asMap(self):
